@@ -82,6 +82,14 @@ class FaultPeer(transports.Peer):
         self.delim_seen = False
 
     def on_write(self, conn, data):
+        items = self._on_write(conn, data)
+        if self.framing == 'binary':
+            for it in items:
+                if it[0] != 'close' and any(b in (0x7B, 0x7D) for b in it[1][1:-1]):
+                    self.delim_seen = True
+        return items
+
+    def _on_write(self, conn, data):
         self.seq += 1
         try:
             p = refframe.parse_one(self.framing, data)
